@@ -112,8 +112,50 @@ def scenario(prog, backend, f, a, use_model, root_dir):
     return res
 
 
+CTX_VALUES = [None, {}, {"shard": 0}, {"shard": 1}, {"dry_run": False}, {"dry_run": True}, {"label": ""}, {"label": "x"},
+              {"opt": None}, {"lst": []}, {"shard": 0, "region": "eu"}, {"region": "eu"}, {"k": 1}, {"k": 1.0}, {"k": True}, {"k": "1"}]
+
+
+def value_scenario(backend, root_dir):
+    """context dictionaries whose values are falsy or differ only in type: each distinct dictionary is its own identity for
+    the call and for the calls beneath it ({} = no context arguments)"""
+    leaf = dict(explicit=False, stmts=[], const=1, **{"raise": [0, 0, 0, 0]})
+    prog = dict(fns={1: leaf, 2: dict(explicit=False, stmts=[["call", 1, 0, "i", False, False, False, False, [0, 0]]], const=2,
+                                      **{"raise": [0, 0, 0, 0]})})
+    w = progs.RunWorld(prog, backend=backend, root=root_dir, use_model=False)
+    fails = []
+    try:
+        f2 = w.mod.f2
+        seen = []           # canonical context -> executions observed when first called
+        for cx in CTX_VALUES:
+            fn = f2 if cx is None else f2.with_context_args(cx)
+            progs.REC.calls.clear()
+            fn(1)
+            ran = sorted({c[0] for c in progs.REC.calls})
+            ident = json.dumps(cx or None, sort_keys=True) + ":" + ",".join(type(v).__name__ for _, v in sorted((cx or {}).items()))
+            first = ident not in seen
+            if first:
+                seen.append(ident)
+            want = [1, 2] if first else []
+            if ran != want:
+                fails.append(dict(clause="different-context-stored-separately" if first else "same-context-served-again", context=repr(cx),
+                                  executed=ran, expected=want))
+            # bodies never see the context
+            for (_, kw, _) in progs.REC.calls:
+                extra = set(kw) - {"a"}
+                if extra:
+                    fails.append(dict(clause="bodies-never-receive-context", kwargs=sorted(kw)))
+    finally:
+        w.close()
+    return fails
+
+
 def main(chk, replay=None):
     if replay is not None:
+        if replay.get("kind") == "values":
+            fails = value_scenario(replay["backend"], None)
+            print(json.dumps(dict(still_fails=bool(fails), observed=fails[:3]), default=str))
+            return 1 if fails else 0
         r = scenario(replay["program"], replay["backend"], replay["f"], replay["a"], False, None)
         print(json.dumps(dict(still_fails=bool(r["fails"]), observed=r["fails"][:3]), default=str))
         return 1 if r["fails"] else 0
@@ -126,6 +168,13 @@ def main(chk, replay=None):
     rng = chk.rng
     n = 40 if quick else 600
     reported = 0
+    for backend in ("fs", "memory", "fs+cache"):
+        fails = value_scenario(backend, chk.tmpdir())
+        chk.case(["context-values", backend], sample=dict(kind="context value matrix", backend=backend, contexts=[repr(c) for c in CTX_VALUES[:6]]))
+        chk.count("context-value-matrix", len(CTX_VALUES))
+        for fl in fails[:2]:
+            chk.violation({"what": "context arguments: %s for context %s" % (fl["clause"], fl.get("context")), "class": {"clause": fl["clause"], "kind": "values"},
+                           "kind": "values", "backend": backend, "observed": fails[:3]})
     for i in range(n):
         simple = rng.random() < 0.5
         prog = progs.gen_program(rng, nfns=rng.randint(2, 6), ctx_rate=0.4, exc_rate=0.0 if simple else 0.25,
